@@ -503,22 +503,22 @@ class Runner(object):
         self.note('c16_raise_checks')
         if raised is not exc_obj:
             self.violation('C16', 'exception-not-propagated',
-                           'function raised %r; caller saw %r' % (exc_obj, raised))
+                           'function raised %r; caller saw %r' % (exc_obj, raised), keys=[k])
         n = s1['nlog'] - s0['nlog']
         if n != 1:
-            self.violation('C16', 'raise-evaluations', 'raising call evaluated %d times' % n)
+            self.violation('C16', 'raise-evaluations', 'raising call evaluated %d times' % n, keys=[k])
         if s1['mem'] != s0['mem']:
             self.violation('C16', 'raise-changed-memory',
                            'memory changed by a raising call: %r -> %r'
-                           % (sorted(map(skey, s0['mem'])), sorted(map(skey, s1['mem']))))
+                           % (sorted(map(skey, s0['mem'])), sorted(map(skey, s1['mem']))), keys=[k])
         if s1['arch'] != s0['arch']:
-            self.violation('C16', 'raise-changed-archive', 'archive changed by a raising call')
+            self.violation('C16', 'raise-changed-archive', 'archive changed by a raising call', keys=[k])
         if tuple(s1['info']) != tuple(s0['info']):
             self.violation('C16', 'raise-changed-stats',
-                           'info() changed by a raising call: %r -> %r' % (s0['info'], s1['info']))
+                           'info() changed by a raising call: %r -> %r' % (s0['info'], s1['info']), keys=[k])
             self.violation('C15', 'failed-call-counted',
                            'a call that raised (not completed) moved the counters: %r -> %r'
-                           % (s0['info'], s1['info']))
+                           % (s0['info'], s1['info']), keys=[k])
 
     def check_call(self, i, args, kwds, expect, k, cls, result, raised, s0, s1):
         cfg = self.cfg
@@ -1001,6 +1001,14 @@ def gen_history(rng, focus, cfg, pool, n, ms):
         del recent[:-max(1, ms)]
         rn = rng.choice(sorted(EXC_TYPES)) if rng.random() < raise_p else None
         ops.append(_call(c, rn))
+    if focus in ('C05', 'C15', 'C07') and has_arch and rng.random() < 0.35:
+        # "warm start": the archive already holds part of the pool, the memory cache is emptied (or a
+        # new instance is created) and bulk-loaded, and only then do calls - some of them new - arrive
+        part = rng.sample(pool, max(1, int(len(pool) * rng.choice([0.5, 0.7]))))
+        warm = [['archfill', [[enc(c[0]), enc(c[1])] for c in part]],
+                rng.choice([['clear', None], ['clear', 1], ['reopen']]), ['load']]
+        at = rng.randrange(0, max(1, len(ops) // 2))
+        ops[at:at] = warm
     return ops
 
 
